@@ -60,6 +60,8 @@ def gen_body(rng, ci, j, keys, big_n, depth, target):
 
 def gen_plain(rng, ci, j, keys, big_n, target, in_block=False):
     k = rng.choice(keys)
+    if not in_block and rng.random() < 0.06:
+        return {'op': 'close'}     # a thread (or process) closing its connection never disturbs another client's block
     if target == 'index':
         name = rng.choice(('setitem', 'setitem', 'getitem', 'delitem', 'ipop', 'setdefault', 'contains', 'len'))
         op = {'op': name}
